@@ -44,6 +44,8 @@ def alphabet():
                 ops.append('mk.dom\t0\t%s\t%s\t-\t%s' % (name, ln, dt))
     # the complement of the NEXT automatic name (prefix d, ID 1) declared explicitly, with either length
     ops += ['mk.dom\t0\td1*\t5\t-\t-', 'mk.dom\t0\td1*\t9\t-\t-', 'mk.dom\t0\td1\t-\t-\tlong']
+    # automatic names with an EMPTY prefix (numeric names), with and without dtype
+    ops += ['mk.dom\t0\t-\t5\t\t-', 'mk.dom\t0\t-\t-\t\tlong', 'mk.dom\t0\t1*\t5\t-\t-', 'mk.dom\t0\t1*\t9\t-\t-']
     # length 0: a degenerate but accepted length; the complement rule applies to it like to any other length
     ops += ['mk.dom\t0\ta*\t0\t-\t-', 'mk.dom\t0\ta\t0\t-\t-']
     # keywords passed explicitly as None (what a forwarding wrapper does): the same requests as with the keyword omitted
